@@ -46,7 +46,9 @@ def check(run):
     req, pend = [], []
     try:
         for k in range(n):
-            wb = bookgen.generate(rnd, n_books=rnd.choice([1, 2]), n_sheets=rnd.choice([2, 3]), whole_col=(k % 12 == 5))
+            rows_, cols_ = rnd.choice([(6, 4), (6, 4), (3, 7), (2, 8)])      # also sheets wider than tall
+            wb = bookgen.generate(rnd, n_books=rnd.choice([1, 2]), n_sheets=rnd.choice([2, 3]), whole_col=(k % 12 == 5 and rows_ == 6),
+                                  rows=rows_, cols=cols_, n_const=min(14, rows_ * cols_), n_formula=min(12, rows_ * cols_))
             dd = os.path.join(tmp, 'w%d' % k)
             os.makedirs(dd)
             os.chdir(dd)
@@ -76,7 +78,7 @@ def check(run):
                     a = rnd.choice(addrs)
                     if rnd.random() < 0.25:
                         # a rectangle around it, inside the grid
-                        r2, c2 = min(6, a[1] + rnd.randint(0, 2)), min(4, a[2] + rnd.randint(0, 1))
+                        r2, c2 = min(rows_, a[1] + rnd.randint(0, 2)), min(cols_, a[2] + rnd.randint(0, 1))
                         outs.append((a[0], a[1], r2, a[2], c2))
                     else:
                         outs.append((a[0], a[1], a[1], a[2], a[2]))
